@@ -429,7 +429,7 @@ const char * CORNER = "# corner.MDP 3x3\n\nvalues: rewards\nstates: 4\nactions: 
 const char * EJS = "# ejs4.POMDP\n\nvalues: rewards\nstates: 3\nactions: 2\nobservations: 2\n\nT : 0\n0.1 0.1 0.8\n0.2 0.5 0.3\n0.7 0.1 0.2\n\nT : 1\n0.1 0.8 0.1\n0.7 0.1 0.2\n0.1 0.9 0.0\n\n"
     "O : 0\n0.7 0.3\n0.1 0.9\n0.4 0.6\n\nO : 1\n0.2 0.8\n0.4 0.6\n0.3 0.7\n\nR : 0 : 0 : * : * -1.0\nR : 0 : 1 : * : *  0.0\nR : 1 : 1 : * : * -1.0\n";
 
-const long NFIXED = 18;
+const long NFIXED = 21;
 
 void fixedCase(long idx) {
     switch (idx) {
@@ -461,6 +461,9 @@ void fixedCase(long idx) {
             break;
         }
         case 16: runText(false, "states: 2\nactions: 1\nT: 0 : 1x : 0 1\nT: 0 : 0 : 0abc 1.0junk\n", REJ("trailing_garbage")); break;  // `1x` is index 1, `1.0junk` is 1.0
+        case 17: runText(false, "states: 2\n", REJ("missing_sizes")); break;                 // sizes only partly declared, no statements at all
+        case 18: runText(false, "actions: 2\ndiscount: 0.5\n", REJ("missing_sizes")); break;
+        case 19: runText(true, "states: 1\nactions: 1\n", REJ("missing_sizes")); break;
         default: runText(false, "states: 18446744073709551616\nactions: 1\nT: 0 : 0 : 0 1\n", ANY); break; // stoul out_of_range is swallowed: one state named "1844…"
     }
 }
